@@ -289,3 +289,33 @@ def order_from_keys(ctx: Ctx) -> None:
                         '(e.g. a key function\'s output is computed and then dropped)', key=key)
         (ctx.ok if keyed_names else ctx.bad)(R, f, f.node, 'the key function\'s result is the container that is sorted' if keyed_names else
                                              'the key function is never applied', key=f'{f.name}:key-applied')
+
+
+def keys_own_dtype(ctx: Ctx) -> None:
+    R = 'I.sort-keys-own-dtype'
+    ctx.rule(R, 'per path (symbolic store) of Frame.sort_values: when rows are ordered by several key columns and no key function is given, each key handed to '
+             'np.lexsort is extracted column by column from the TypeBlocks selection (its own dtype); the key columns are not first consolidated into one array by '
+             '`_extract_array(column_key=<the key columns>)`, whose single resolved dtype turns large integers next to floats (or numbers next to strings) into '
+             'values that compare differently', floor=2)
+    from sfa.symenv import SymEnv
+    prog = ctx.prog
+    f = prog.method('Frame', 'sort_values', inherited=False)
+    sites = [c for c in walk_local(f.node) if isinstance(c, ast.Call) and call_name(c) in ('np.lexsort', 'np.argsort') and c.args]
+    ids = {id(c) for c in sites}
+    se = SymEnv(f.node, watch=lambda x: id(x) in ids, max_worlds=2048, max_len=2500,
+                keep_fact=lambda t: t in ('axis == 0', 'axis == 1', 'key') or t.endswith('is None') or t.endswith('is not None')).run()
+    n = 0
+    for c in sites:
+        for w in sorted(se.at(c)):
+            facts = se.facts(w)
+            if facts.get('axis == 1') is not True or facts.get('key') is not False:
+                continue
+            t = se.text(c.args[0], w)
+            if t in ('values_for_lex', 'values_for_sort', 'None'):
+                continue            # the other primitive's operand on this path
+            n += 1
+            consolidated = 'self._blocks._extract_array(column_key=' in t and call_name(c) == 'np.lexsort'
+            key = f'sort_values:{call_name(c)}@axis1'
+            (ctx.bad if consolidated else ctx.ok)(R, f, c, 'key columns are consolidated into one array before comparison: they are compared in one resolved dtype, not their own' if consolidated else
+                                                  f'{call_name(c)} over per-column key arrays', key=key)
+    ctx.require(n >= 2, 'row-ordering sort primitives of Frame.sort_values without a key function')
